@@ -63,6 +63,9 @@ def gen_cases(tier, seed):
             o["skip_time"] = 0.1 * o["solve_time"]
         if k % 8 == 5:
             case["solve_twice"] = True  # one TDGLSolver object, solve() called twice
+        if k % 8 in (1, 6) and not case.get("remesh"):
+            # the Device object was solved before with other options (pinning toggled), optionally moved in place and back
+            case["history"] = ["used", "used_moved"][(k // 8) % 2 if k % 8 == 1 else 1 - (k // 8) % 2]
         cases.append(case)
     return cases
 
